@@ -53,7 +53,6 @@ Definition regex_by_id (id : N) (v : N) : option re :=
     | 0 => Some (pseudo c) | 1 => Some (whitespace c) | 2 => Some (fs_single c) | 3 => Some (fs_multi c)
     | 4 => Some (spec_single c) | 5 => Some (spec_multi c) | 6 => Some (ws_dollar c)
     | 7 => Some prefix_re | 8 => Some split_lines_re
-    | _ => match nth_error (endpats c) (N.to_nat (id - 100)) with Some (_, r) => Some r | None =>
-             nth_error cookie_res (N.to_nat (id - 50)) end
+    | _ => match nth_error (endpats c) (N.to_nat (id - 100)) with Some (_, r) => Some r | None => None end
     end
   end.
